@@ -42,7 +42,8 @@ fn d(clause: &'static str, detail: String) -> Diff {
 /// is the visible text of this link legitimately rewritten by formatting?
 /// ordinary (inline / reference-style) internal link to an existing note that has a title
 pub fn refreshable(l: &LinkOcc, dir: &str, lib: &LibView) -> Option<String> {
-    if !matches!(l.kind, LKind::Inline | LKind::Reference) || !mdscan::is_internal(&l.dest) {
+    // (a link that shows an image keeps it: a title in its place would delete the image)
+    if !matches!(l.kind, LKind::Inline | LKind::Reference) || !mdscan::is_internal(&l.dest) || l.holds_image {
         return None;
     }
     let key = mdscan::resolve(&l.dest, dir)?;
